@@ -13,7 +13,8 @@ use zkabacus_crypto as za;
 
 pub struct C01;
 
-pub const STRATEGIES: [(&str, usize); 12] = [
+pub const STRATEGIES: [(&str, usize); 13] = [
+    ("negated-commitments", 3),
     ("residual-pair", 140),
     ("structured-lie", 8),
     ("compensating-shift", 5),
@@ -650,6 +651,38 @@ fn run_case(o: &mut Outcome, case: &Value) {
             let at = attack(m, &ag, seed, &draft, &mut build, o);
             accepted = if at.accepted { Some((at, h, d.st.bf, d.cl.bf)) } else { None };
         }
+        "negated-commitments" => {
+            // the honest proof for the agreed values with C and T of one or both sub-proofs replaced
+            // by their inverses (same x-coordinate): the responses are the ordinary ones, each
+            // opening equation then holds "up to sign" only. Accepted by a verifier that compares
+            // the two sides through an encoding that drops the sign; the merchant then signs the
+            // NEGATED message.
+            let d = est_draft_linked(m, &truth, &mut s);
+            let (neg_st, neg_cl) = [(true, true), (true, false), (false, true)][variant % 3];
+            let mut h = truth.clone();
+            let mut ov = EstOverrides::default();
+            if neg_st {
+                ov.st_c = Some(-d.st.c);
+                ov.st_t = Some(-d.st.t);
+                for x in h.st.iter_mut() {
+                    *x = -*x;
+                }
+            }
+            if neg_cl {
+                ov.cl_c = Some(-d.cl.c);
+                ov.cl_t = Some(-d.cl.t);
+                for x in h.cl.iter_mut() {
+                    *x = -*x;
+                }
+            }
+            site = format!("negated-commitments/{}", ["both", "state", "close-state"][variant % 3]);
+            o.bump("fault.byzantine.negated-commitments");
+            let draft = assemble_est(&template, &d, None, &ov);
+            let mut build = |c: &Scalar| assemble_est(&template, &d, Some(c), &ov);
+            let at = attack(m, &ag, seed, &draft, &mut build, o);
+            let (sbf, cbf) = (if neg_st { -d.st.bf } else { d.st.bf }, if neg_cl { -d.cl.bf } else { d.cl.bf });
+            accepted = if at.accepted { Some((at, h, sbf, cbf)) } else { None };
+        }
         "replayed-draft" => {
             // a proof accepted in one session (true there) presented in another session whose agreed
             // values differ: other context / other balances
@@ -767,7 +800,7 @@ impl Prop for C01 {
         v
     }
     fn rule(&self) -> String {
-        "one case = one session between the real merchant (initialize, then activate) and a Byzantine customer: fresh agreed (channel id, balances from the boundary lattice or random, context); after the accept-the-truth control the actor runs one strategy of the family {honest prover lying in one slot (7), cross-slot substitution (4), one violated relation / invalid sub-proof (12), compensating shifts between the two sub-proofs (5), residual pairs (every ordered pair of the eight slot equations: lie in one, opposite lie or mask offset of -/+ the same amount in the other; 140), structured lies (balances congruent mod 2^64 / 2^128, sum-preserving two-slot lies) (8), post-challenge choice of each revealed commitment scalar (4), of each scalar commitment T (2), of each commitment C (2), of several at once (3), replay of an accepted proof under other agreed values (2)} using probe -> read the merchant's challenge through the hook -> adapt -> resubmit (up to three rounds). Distinct = distinct (strategy, variant, balances, seed); non-trivial = an attack (not just the control) was run".into()
+        "one case = one session between the real merchant (initialize, then activate) and a Byzantine customer: fresh agreed (channel id, balances from the boundary lattice or random, context); after the accept-the-truth control the actor runs one strategy of the family {honest prover lying in one slot (7), cross-slot substitution (4), one violated relation / invalid sub-proof (12), compensating shifts between the two sub-proofs (5), the honest proof with C and T of one or both sub-proofs negated (3), residual pairs (every ordered pair of the eight slot equations: lie in one, opposite lie or mask offset of -/+ the same amount in the other; 140), structured lies (balances congruent mod 2^64 / 2^128, sum-preserving two-slot lies) (8), post-challenge choice of each revealed commitment scalar (4), of each scalar commitment T (2), of each commitment C (2), of several at once (3), replay of an accepted proof under other agreed values (2)} using probe -> read the merchant's challenge through the hook -> adapt -> resubmit (up to three rounds). Distinct = distinct (strategy, variant, balances, seed); non-trivial = an attack (not just the control) was run".into()
     }
     fn assumptions(&self) -> Vec<String> {
         vec![
@@ -777,6 +810,6 @@ impl Prop for C01 {
         ]
     }
     fn required_probes(&self, _tier: Tier) -> Vec<&'static str> {
-        vec!["probe.control_accepted", "probe.attack_refused", "fault.byzantine.adaptive-revealed-scalar", "fault.byzantine.adaptive-scalar-commitment", "fault.byzantine.adaptive-commitment", "fault.byzantine.per-relation", "fault.byzantine.cross-slot", "fault.byzantine.lying-honest-prover", "fault.byzantine.compensating-shift", "fault.byzantine.residual-pair"]
+        vec!["probe.control_accepted", "probe.attack_refused", "fault.byzantine.adaptive-revealed-scalar", "fault.byzantine.adaptive-scalar-commitment", "fault.byzantine.adaptive-commitment", "fault.byzantine.per-relation", "fault.byzantine.cross-slot", "fault.byzantine.lying-honest-prover", "fault.byzantine.compensating-shift", "fault.byzantine.residual-pair", "fault.byzantine.negated-commitments"]
     }
 }
